@@ -195,9 +195,14 @@ def corruptions(traces):
     return out
 
 
-def selftest(ctx, traces, prop):
-    cases = corruptions(traces)
+def selftest(ctx, traces, prop, val):
+    """corruptions of a trace that TLC accepted in this run must be rejected with the expected clause"""
+    touched = set(e["id"] for e in val.rejects + val.known)
+    cases = corruptions([t for t in traces if t["id"] not in touched])
     if not cases:
+        if touched:
+            ctx.note("corruption self-test skipped: no accepted trace with a table (this run has rejections)")
+            return 0
         ctx.machinery("no accepted trace with a table found for the corruption self-test")
     val = CT.validate(ctx, [v for _, v in cases], prop, name="corrupt")
     got = {r["id"]: r["clause"] for r in val.rejects}
@@ -252,7 +257,7 @@ def run(ctx):
     traces = CT.record_all(ctx, inputs)
     val = CT.validate(ctx, traces, CLAUSES)
     report(ctx, val)
-    ncorrupt = selftest(ctx, traces, CLAUSES)
+    ncorrupt = selftest(ctx, traces, CLAUSES, val)
     shared.evidence(ctx, inputs, gen_stats, traces, val,
                     "DocTree.tla: %d transitions (guarded + unguarded) replayed on real AdvancedNode objects." % dt["replayed"])
     ctx.set_cover(doctree_states=dt["states"], doctree_transitions=dt["transitions"], doctree_replayed=dt["replayed"],
